@@ -339,6 +339,41 @@ func buildWith(regs []opReg, m Mode) (*parser.Builder, error) {
 	return pb, nil
 }
 
+// breakBeforeInfix puts a line break in front of every " op " that the generic renderer wrote with blanks on both sides
+// (infix operators, built-in and registered): `a + b @ c` becomes `a\n+ b\n@ c`. ECMAScript continues the expression
+// in front of an infix operator, and so must a parser with registered ones.
+func breakBeforeInfix(src string) string {
+	var sb strings.Builder
+	for i := 0; i < len(src); i++ {
+		if src[i] == ' ' && i+2 < len(src) && src[i+1] != ' ' && src[i+1] != '(' && src[i+1] != '[' {
+			// a blank that precedes an operator spelling followed by a blank
+			j := i + 1
+			for j < len(src) && src[j] != ' ' {
+				j++
+			}
+			if j < len(src) && j > i+1 && !isIdentChar05(src[i+1]) || isWordOp(src[i+1:j]) {
+				sb.WriteByte('\n')
+				continue
+			}
+		}
+		sb.WriteByte(src[i])
+	}
+	return sb.String()
+}
+
+func isIdentChar05(c byte) bool {
+	return c == '_' || c == '$' || (c >= '0' && c <= '9') || (c >= 'a' && c <= 'z') || (c >= 'A' && c <= 'Z')
+}
+
+func isWordOp(s string) bool {
+	for _, w := range opWords {
+		if w == s {
+			return true
+		}
+	}
+	return false
+}
+
 // keywordsAdded: words entered into token.Keywords by buildWith (via = "keywords"); removed again after the parse.
 var keywordsAdded []string
 
@@ -360,6 +395,27 @@ func checkCustomTree(t *fw.T, regs []opReg, tree *cnode, clause string, keyLevel
 func checkCustomTreeIC(t *fw.T, regs []opReg, tree *cnode, clause string, keyLevel int, coin *rand.Rand) {
 	src := tree.String()
 	want := "(program (expr " + tree.S() + "))"
+	mode := Mode{}
+	// the expression also stands where expressions stand in statements (after `return`, as initialiser, condition,
+	// argument) and is laid out over several lines with the operators leading the continuation lines, in default and in
+	// smart-semicolon mode (no line begins with '(' or '['): grouping is the same everywhere
+	switch t.Index % 7 {
+	case 1:
+		src, want = "function f() { return "+src+" }", "(program (func f () (block (return "+tree.S()+"))))"
+	case 2:
+		src, want = "let v = "+src, "(program (let v "+tree.S()+"))"
+	case 3:
+		src, want = "if ("+src+") x", "(program (if "+tree.S()+" (expr (id x))))"
+	case 4:
+		src, want = "g(z, "+src+")", "(program (expr (call (id g) (id z) "+tree.S()+")))"
+	case 5, 6:
+		if ml := breakBeforeInfix(src); !hasLineLeadingBracket(ml) {
+			src = ml
+			if t.Index%7 == 6 {
+				mode = Mode{Smart: true}
+			}
+		}
+	}
 	wit := func() map[string]any {
 		return map[string]any{"source": src, "registered": fmt.Sprint(regs), "expected_tree": want, "with_expression_interceptors": coin != nil}
 	}
@@ -367,7 +423,7 @@ func checkCustomTreeIC(t *fw.T, regs []opReg, tree *cnode, clause string, keyLev
 	var errs []parser.ParserError
 	ok := t.Guard("parse with registered operators", wit, func() {
 		defer removeAddedKeywords()
-		pb, err := buildWith(regs, Mode{})
+		pb, err := buildWith(regs, mode)
 		if err != nil {
 			panic("registration refused: " + err.Error())
 		}
